@@ -2,6 +2,8 @@
 
 package tubes
 
+import "github.com/sirupsen/logrus"
+
 // VerifState returns the lifecycle state of a tube as a string (white-box
 // accessor for the simulation harness; file added by -overlay).
 func VerifState(t Tube) string {
@@ -21,3 +23,34 @@ func VerifState(t Tube) string {
 	}
 	return "?"
 }
+
+// VerifRecv drives the real reassembly core (receiver) in isolation.
+type VerifRecv struct{ r *receiver }
+
+// VerifNewReceiver creates a receiver that expects frame number start next.
+func VerifNewReceiver(start uint64) *VerifRecv {
+	r := newReceiver(logrus.WithField("verif", "recv"))
+	r.m.Lock()
+	r.ackNo = start
+	r.windowStart = start
+	r.m.Unlock()
+	return &VerifRecv{r}
+}
+
+// Receive feeds one data (or FIN) frame; it returns whether the FIN was processed.
+func (v *VerifRecv) Receive(frameNo uint32, data []byte, fin bool) (bool, error) {
+	f := &frame{frameNo: frameNo, data: data, dataLength: uint16(len(data)), flags: frameFlags{REL: true, FIN: fin, ACK: fin}}
+	return v.r.receive(f)
+}
+
+// Drain returns the bytes assembled so far without blocking.
+func (v *VerifRecv) Drain() []byte {
+	v.r.m.Lock()
+	defer v.r.m.Unlock()
+	out := append([]byte(nil), v.r.buffer.Bytes()...)
+	v.r.buffer.Reset()
+	return out
+}
+
+// Ack returns the receiver's cumulative acknowledgement number (32 bit on the wire).
+func (v *VerifRecv) Ack() uint32 { return v.r.getAck() }
